@@ -38,6 +38,26 @@ CMP_WORDS = {"eq": "Eq", "ne": "Ne", "gt": "Gt", "ge": "Ge", "lt": "Lt", "le": "
 LOGIC_WORDS = {"and": "And", "or": "Or", "xor": "Xor"}
 
 
+def every_attribute_evaluated(prog, chk):
+    """SvgElement::eval_attributes evaluates every attribute except the raw comment `__`: the attribute names it
+    singles out (compares a key with) are exactly that one.  An attribute skipped here keeps its `{{..}}` / `$var`
+    text wherever it is not evaluated by some other route (the `_` comment of a <g>, an id, a class ...)."""
+    b = prog.body("svgdx::element::SvgElement::eval_attributes")
+    chk.touch(b)
+    lits = set()
+    for cb in [b] + [x for x in prog.bodies.values() if x.root == b.id]:
+        for (bb, t, c) in cb.call_sites(lambda c: c.decl_path in ("std::cmp::PartialEq::eq", "std::cmp::PartialEq::ne") or c.path.split("::")[-1] in ("starts_with", "ends_with", "contains")):
+            for a in t["args"]:
+                o = R.origin(cb, a, carriers=dict(R.CARRIERS))
+                if o[0] == "const" and "str" in o[1]:
+                    lits.add(o[1]["str"])
+                elif o[0] == "const" and "array" in o[1]:
+                    lits |= {k["str"] for k in o[1]["array"] if isinstance(k, dict) and "str" in k}
+    evals = b.call_sites(lambda c: c.path == "svgdx::expression::eval_attr")
+    chk.floor("A13.every-attribute-evaluated", len(evals), 1, "eval_attr call in eval_attributes")
+    chk.ob(lits <= {"__"}, "A13.every-attribute-evaluated", "eval_attributes:skip-set", b.where(), "eval_attributes singles out no attribute name other than the raw comment `__`", f"eval_attributes treats the attribute names {sorted(lits - {'__'})} specially: they are no longer evaluated here, so their {{{{..}}}} / $var text survives wherever no other route evaluates it")
+
+
 def run(prog, chk):
     skeleton(prog, chk)
     operators(prog, chk)
@@ -46,6 +66,7 @@ def run(prog, chk):
     once_and_rng(prog, chk)
     single_precision_only(prog, chk)
     one_evaluation_per_element(prog, chk)
+    every_attribute_evaluated(prog, chk)
     nesting_counter_balanced(prog, chk)
     list_grammar(prog, chk)
     from props import C15
